@@ -385,6 +385,7 @@ func (ex *Exec) recordViolation(model map[string]uint64, p *Predicted) {
 	vec := ex.buildVector(model)
 	vec.Predicted = p
 	vec.Notes = ex.evalNotes(model)
+	ex.pathViol = true
 	sig := ex.harness + "|" + p.Outcome + "|" + p.Label + p.Site + "|" + normMsg(p.Msg)
 	ex.viols.add(&Violation{vec: vec, sig: sig})
 }
@@ -496,7 +497,9 @@ func (ex *Exec) runPath(it workItem, harnessNames []string, cfg *runConfig) {
 		ex.st.paths++
 		outcome = "ok"
 	}()
-	if outcome == "ok" {
+	if outcome == "ok" && ex.pathViol {
+		ex.st.perHarness[ex.harness]++ // complete, but it carries a violation candidate: not a validation sample
+	} else if outcome == "ok" {
 		ex.st.perHarness[ex.harness]++
 		for _, c := range ex.covers {
 			ex.st.covers[ex.harness+"/"+c]++
